@@ -23,7 +23,7 @@ CLAIMED = {
    text="Histories of read calls (typed loads incl. wrong types, raw resolves, stream data, raw and decoded image data, page look-ups, lazy loads; resolver reuse/renewal) on a document with real SyncCache caches in three cache modes, with eviction faults between and inside calls; each call's answer must equal the answer of that call alone on a fresh uncached document. Complete enumeration of ordered pairs (quick) / triples (thorough) of call kinds per sampled object, plus seeded random histories; fault-free and fault batches counted separately.",
    note="Reference model is the library's own uncached behaviour; digests via canonicalised Debug renderings; objects of large corpus files are sampled."),
  "C13": dict(level="exploration", design="DESIGN.md §4.1",
-   technique="deterministic simulation: seeded baton scheduler over real OS threads at the Cache/Log seams + eviction fault injection; linearizability-style check of every answer against the sequential (alone) answer",
+   technique="deterministic simulation: seeded baton scheduler over real OS threads at the Cache/Log seams + eviction fault injection; linearizability-style check of every answer against the sequential (alone) answer; second engine: the same scenarios under Miri's seeded scheduler (no stubs)",
    text="Seeded search over schedules: 2-4 simulated reader threads (real OS threads released one at a time by a PRNG-driven scheduler at the Log/Cache seam points inside StorageResolver::get) x resolver sharing {shared, per thread, per call} x cache modes x eviction faults; every answer compared with the answer of the same call on a fresh uncached document, non-matching answers must be explained by a sequential order; panics, deadlocks (exact, with wait-for cycle), step budget and leftover recursion-guard entries are invariants. Sampling, not proof.",
    note="Preemption only at seam points (atomic between them); blocking on in-process cache entries / OnceCell is simulated; real SyncCache non-blocking paths. Trusted: the harness scheduler, digests and the independent document writer."),
 }
@@ -73,7 +73,9 @@ m = {
  },
  "engines": [
   {"name": "pdfsim", "path": "/verif/sim", "serves_properties": sorted(CLAIMED.keys()),
-   "kind_free_text": "deterministic simulator: seeded PRNG decides documents, operations, faults and every context switch; supervisor + worker processes; replay files store decisions"}
+   "kind_free_text": "deterministic simulator: seeded PRNG decides documents, operations, faults and every context switch; supervisor + worker processes; replay files store decisions"},
+  {"name": "miri_c13", "path": "/verif/sim/src/bin/miri_c13.rs", "serves_properties": ["C13"],
+   "kind_free_text": "the C13 scenarios with plain std threads under cargo +nightly miri run -Zmiri-many-seeds (deterministic interpreter with a seeded scheduler; real SyncCache condvar path, OnceCell, Mutex; data-race / deadlock detection); invoked by ./check C13"}
  ],
  "checks": checks,
  "notes": "exit 0 = held on everything explored (KNOWN-FINDING lines possible), 1 = VIOLATION line(s), 2 = harness error. VERIF_SEED (default 1), VERIF_TIER, VERIF_WORKERS, PDF_REPO honoured. Known findings: /verif/known_findings.jsonl.",
